@@ -368,6 +368,24 @@ def equivalent_to_some(logic, decls, a, others):
     return None if undecided else False
 
 
+def represented(logic, decls, u, terms):
+    """is the script assertion u among the solver's terms?  Equivalent to one of them, or -- when u contains an ite that the
+    solver replaced by an auxiliary constant with its definition -- entailed by one of the rewritten terms (untrusted z3)"""
+    e = equivalent_to_some(logic, decls, u, terms)
+    if e or not has_ite(u):
+        return e
+    for t in terms:
+        if ".ite" not in sx_str(t):
+            continue
+        def go(t=t):
+            ans, _ = sc.ref_answer("z3", lg(logic), decls, [t, ["not", sc.strip_named(u)]], timeout=30)
+            return ans
+        a = _memo(("ent", logic, tuple(decls), sx_str(t), sx_str(sc.strip_named(u))), go)
+        if a == "unsat":
+            return True
+    return e
+
+
 def norm(t):
     """cheap syntactic normal form (string) approximating opensmt's term identity: names stripped, => expanded, and/or
     flattened, arguments of commutative operators sorted, duplicates and neutral constants of and/or removed"""
